@@ -8,6 +8,15 @@ LEVEL = "model_checking"
 FINDING = "C11/same-name-files"
 MUT_KINDS = ["rename", "rowplus", "bytesplus", "rgplus", "rgminus", "fileplus", "fileminus"]
 
+def vacuity(ctx, msg):
+    """A coverage hole is a tool error - unless the run already found violations: a defect may be the very
+    reason a class of outcomes disappeared, and the verdict must not be masked by the guard."""
+    if ctx.violations:
+        ctx.notes.append("vacuity guard not enforced because violations were found: " + msg)
+        return
+    raise vlib.ToolError(msg)
+
+
 
 # ------------------------------------------------------------------ (M) the model
 def model_runs(ctx):
@@ -345,18 +354,18 @@ def run(ctx):
     # vacuity
     for k, v in feats.items():
         if v == 0:
-            raise vlib.ToolError(f"no real run exercised {k}")
+            vacuity(ctx, f"no real run exercised {k}")
     for k in MUT_KINDS:
         if kinds.get(k, 0) == 0:
-            raise vlib.ToolError(f"mutation kind {k} never changed the real footers")
+            vacuity(ctx, f"mutation kind {k} never changed the real footers")
     need = {"small", "minclamp"} | (set() if quick else {"ideal"})
     if not need <= set(regimes):
-        raise vlib.ToolError(f"target regimes reached with real constants: {sorted(regimes)}; needed {sorted(need)}")
+        vacuity(ctx, f"target regimes reached with real constants: {sorted(regimes)}; needed {sorted(need)}")
     if not dupg:
-        raise vlib.ToolError("no same-name group was generated")
+        vacuity(ctx, "no same-name group was generated")
     eq = [t for g, t in zip(groups, trecs) if g["family"] == "equal-bytes"]
     if not eq or eq[0]["calls"][0]["files"][0]["rgs"][0]["bytes"] != eq[0]["calls"][1]["files"][0]["rgs"][0]["bytes"]:
-        raise vlib.ToolError("the equal-bytes pair (4 vs 5 rows) no longer has equal byte sizes: the num_rows-only sensitivity case is not exercised")
+        vacuity(ctx, "the equal-bytes pair (4 vs 5 rows) no longer has equal byte sizes: the num_rows-only sensitivity case is not exercised")
     ctx.set("groups", len(groups))
     ctx.set("exhaustive", True)
     ctx.set("rule", "TLC (Splits.tla) enumerates every inventory within the bounds and checks that the modelled algorithm meets the contract "
